@@ -6,14 +6,14 @@ WT="$1"; D="$(readlink -f "$2")"; FEAT="${3:-}"
 export CARGO_NET_OFFLINE=true
 FF=""; [ -n "$FEAT" ] && FF="--features $FEAT"
 cd "$WT" || exit 3
-git checkout -q -- . ; rm -rf tests/demo.rs
+git checkout -q -- . ; git clean -fdq src ; rm -rf tests/demo.rs
 git apply "$D/patch.diff" || { echo "PATCH DOES NOT APPLY"; exit 3; }
 B=$(cargo test --workspace --lib --no-fail-fast --offline 2>&1 | grep -E "^test result|^error" | head -2 | tr '\n' ' ')
 echo "baseline with patch: $B"
 mkdir -p tests; cp "$D/demo.rs" tests/demo.rs
 W=$(cargo test --offline $FF --test demo 2>&1 | grep -E "^test result|^error" | head -2 | tr '\n' ' ')
 echo "demo with patch:     $W"
-git checkout -q -- .
+git checkout -q -- . ; git clean -fdq src
 O=$(cargo test --offline $FF --test demo 2>&1 | grep -E "^test result|^error" | head -2 | tr '\n' ' ')
 echo "demo without patch:  $O"
 rm -rf tests/demo.rs; rmdir tests 2>/dev/null
